@@ -396,7 +396,16 @@ func run(sc *scenario) result {
 
 	retCh := make(chan error, 1)
 	w.t0 = time.Now()
-	go func() { retCh <- ex.Exec(ctx, qCtx) }()
+	go func() {
+		// a panic inside Exec is an outcome of the call (an error nobody would call "the best answer"), not
+		// a reason to lose the whole run
+		defer func() {
+			if p := recover(); p != nil {
+				retCh <- fmt.Errorf("panic in Exec: %v", p)
+			}
+		}()
+		retCh <- ex.Exec(ctx, qCtx)
+	}()
 
 	returned, hang := false, false
 	var retErr error
@@ -688,7 +697,16 @@ func runUDP(sc *scenario) result {
 	ctx, cancelFn := context.WithCancelCause(context.Background())
 	defer cancelFn(nil)
 	retCh := make(chan error, 1)
-	go func() { retCh <- ex.Exec(ctx, qCtx) }()
+	go func() {
+		// a panic inside Exec is an outcome of the call (an error nobody would call "the best answer"), not
+		// a reason to lose the whole run
+		defer func() {
+			if p := recover(); p != nil {
+				retCh <- fmt.Errorf("panic in Exec: %v", p)
+			}
+		}()
+		retCh <- ex.Exec(ctx, qCtx)
+	}()
 
 	e := sc.expectCalls()
 	{
